@@ -14,6 +14,18 @@ Proof. exact collection_mass. Qed.
 Print Assumptions C18_collection_total.
 
 (* uniform choice: only members (by index), each with probability 1/length; empty sources are rejected *)
+(* the n elements are INDEPENDENT draws: the probability of a given collection is the product of the
+   probabilities of its elements; a collection of another length has probability 0 *)
+Theorem C18_collection_iid : forall (A : Type) (eqb : A -> A -> bool) n (g : dist A) c, length c = n ->
+  prob (collection n g) (list_eqb eqb c) == product_law eqb g c.
+Proof. exact collection_iid. Qed.
+Print Assumptions C18_collection_iid.
+
+Theorem C18_collection_wrong_length : forall (A : Type) (eqb : A -> A -> bool) n (g : dist A) c, length c <> n ->
+  prob (collection n g) (list_eqb eqb c) == 0.
+Proof. exact collection_wrong_length. Qed.
+Print Assumptions C18_collection_wrong_length.
+
 Theorem C18_choice_member : forall (A : Type) (l : list A) d i, one_of l = Some d -> possible d i -> (i < length l)%nat.
 Proof. exact one_of_member. Qed.
 Print Assumptions C18_choice_member.
